@@ -329,6 +329,7 @@ func (ev *Evaluator) eval(d *TDecl, cur cursor, anchored bool, isFinal bool) (in
 		}
 	}
 	var v interface{}
+	unspec := false
 	switch d.kind() {
 	case "const":
 		v = *d.Const
@@ -353,12 +354,21 @@ func (ev *Evaluator) eval(d *TDecl, cur cursor, anchored bool, isFinal bool) (in
 				return nil, err
 			}
 			cv, err := ev.eval(rc, cur, false, false)
+			if errors.Is(err, ErrUnspecified) {
+				// this child's outcome is not specified, but a sibling that definitely fails still fails the record whatever this
+				// child does: keep looking
+				unspec = true
+				continue
+			}
 			if err != nil {
 				return nil, err
 			}
 			if cv != nil || rc.Keep {
 				obj[k] = cv // a kept absent value is null
 			}
+		}
+		if unspec {
+			return nil, ErrUnspecified
 		}
 		v = obj
 	case "array":
@@ -370,7 +380,8 @@ func (ev *Evaluator) eval(d *TDecl, cur cursor, anchored bool, isFinal bool) (in
 			}
 			xp, has, err := ev.xpathOf(rc, cur)
 			if err != nil {
-				return nil, ErrUnspecified
+				unspec = true
+				continue
 			}
 			nodes := []cursor{cur}
 			if has {
@@ -382,6 +393,10 @@ func (ev *Evaluator) eval(d *TDecl, cur cursor, anchored bool, isFinal bool) (in
 			}
 			for _, nd := range nodes {
 				cv, err := ev.eval(rc, nd, true, false)
+				if errors.Is(err, ErrUnspecified) {
+					unspec = true
+					continue
+				}
 				if err != nil {
 					return nil, err
 				}
@@ -389,6 +404,9 @@ func (ev *Evaluator) eval(d *TDecl, cur cursor, anchored bool, isFinal bool) (in
 					arr = append(arr, cv)
 				}
 			}
+		}
+		if unspec {
+			return nil, ErrUnspecified
 		}
 		v = arr
 	case "custom_func":
